@@ -243,16 +243,50 @@ fn oracle(case: &Case, obs: &mut Obs) -> Result<(), Fail> {
 	Ok(())
 }
 
+/// payloads beyond the brotli window the converter works with (2^19 bytes) and beyond 1 / 2 MiB,
+/// and metadata documents that do not fit the 16 KiB a PMTiles file reserves in front of its
+/// tile data even when compressed
+fn big_cases(thorough: bool) -> Vec<Case> {
+	let mut v = vec![];
+	let mut sizes: Vec<u32> = vec![524_287, 524_288, 524_289, 600_000, 1_048_577, 2_500_000];
+	if thorough {
+		sizes.extend([4_194_305, 16_777_217]);
+	}
+	let pairs: [(Comp, Option<Comp>, bool); 6] = [(Comp::None, Some(Comp::Brotli), false), (Comp::Gzip, Some(Comp::Brotli), false), (Comp::Brotli, None, true), (Comp::Brotli, Some(Comp::Gzip), false), (Comp::None, Some(Comp::Gzip), true), (Comp::Brotli, Some(Comp::None), false)];
+	for (i, len) in sizes.iter().enumerate() {
+		for (j, (source_comp, target_comp, force)) in pairs.iter().enumerate() {
+			let target = [Target::Versatiles, Target::Pmtiles, Target::Tar, Target::Dir][(i + j) % 4];
+			let pay = match (i + j) % 3 {
+				0 => PayClass::Compressible { len: *len, seed: (i * 7 + j) as u32 },
+				1 => PayClass::Incompressible { len: *len, seed: (i * 7 + j) as u32 },
+				_ => PayClass::Compressible { len: *len, seed: 1000 + j as u32 },
+			};
+			v.push(Case { target, format: Fmt::Pbf, source_comp: *source_comp, target_comp: *target_comp, force: *force, z: 9, tiles: vec![(0, 0, pay), (1, 0, PayClass::OneByte(7))], meta: None, source: None, flip_y: false, swap_xy: j == 3 });
+		}
+	}
+	for (i, n) in [12_000usize, 20_000, 70_000].iter().enumerate() {
+		let text: String = Mix::new(4242 + i as u64).bytes(*n).iter().map(|b| b"abcdefghijklmnopqrstuvwxyzABCDEFGHIJKLMNOPQRSTUVWXYZ0123456789-_"[(*b & 63) as usize] as char).collect();
+		for (j, target) in Target::ALL.iter().enumerate() {
+			let (format, comp) = if *target == Target::Mbtiles { (Fmt::Pbf, Comp::Gzip) } else { (Fmt::Pbf, Comp::ALL[(i + j) % 3]) };
+			let tiles = (0..6u8).map(|k| (k, k / 2, PayClass::Compressible { len: 2000 + 100 * k as u32, seed: k as u32 })).collect();
+			v.push(Case { target: *target, format, source_comp: comp, target_comp: if *target == Target::Mbtiles { None } else { Some(Comp::ALL[(i + j + 1) % 3]) }, force: j % 2 == 0, z: 9, tiles, meta: Some(format!("{{\"name\":\"big\",\"description\":\"{text}\"}}")), source: None, flip_y: false, swap_xy: false });
+		}
+	}
+	v
+}
+
 fn main() {
 	let mut check = Check::from_args(
 		"C04",
 		"exploration",
-		"1-5 raw payloads per case from the classes {0 bytes (only between compressed source and compressed output), 1 byte, incompressible 200 B-4 KiB, compressible 10-100 KiB, 70 KiB mixed, tiny, a payload that is itself a gzip or brotli file} stored in an in-memory source, or in a container of any of the five formats written by the harness's encoder (generated layout: PMTiles leaf directories and internal compressions, sparse versatiles blocks, MBTiles views ...), compressed with flate2/brotli directly (3 source compressions) x target compression {keep, none, gzip, brotli} x force flag x flip-y / swap-xy (a quarter of the cases each) x 5 target formats (format chosen so that the pair is expressible; for MBTiles an inexpressible pair is kept now and then and must be refused or, if accepted, satisfy the same oracle) x TileJSON document; oracle: independent decoder of the output: declared compression = requested, every tile decoded with the harness's decompressor for the declared compression = raw payload, metadata decodes to the same JSON keys; non-trivial = target differs from the source compression or recompression is forced",
+		"1-5 raw payloads per case from the classes {0 bytes (only between compressed source and compressed output), 1 byte, incompressible 200 B-4 KiB, compressible 10-100 KiB, 70 KiB mixed, tiny, a payload that is itself a gzip or brotli file; a fixed phase with payloads of 2^19-1 .. 2.5 MB (thorough: 4 and 16 MiB + 1) and incompressible metadata of 12 / 20 / 70 KB} stored in an in-memory source, or in a container of any of the five formats written by the harness's encoder (generated layout: PMTiles leaf directories and internal compressions, sparse versatiles blocks, MBTiles views ...), compressed with flate2/brotli directly (3 source compressions) x target compression {keep, none, gzip, brotli} x force flag x flip-y / swap-xy (a quarter of the cases each) x 5 target formats (format chosen so that the pair is expressible; for MBTiles an inexpressible pair is kept now and then and must be refused or, if accepted, satisfy the same oracle) x TileJSON document; oracle: independent decoder of the output: declared compression = requested, every tile decoded with the harness's decompressor for the declared compression = raw payload, metadata decodes to the same JSON keys; non-trivial = target differs from the source compression or recompression is forced",
 	);
 	check.assume("flate2 and brotli crates as independent reference implementations of gzip/brotli");
 	vt::engine::watchdog(3600);
 	let reg: Vec<Case> = check.regression_cases("convert");
 	check.enumerate("regressions", reg, false, oracle);
+	let thorough = check.cases(0, 1) == 1;
+	check.enumerate("big-payloads-and-metadata", big_cases(thorough), false, oracle);
 	check.phase("convert", check.cases(6000, 150_000), strategy, oracle);
 	check.finish();
 }
